@@ -165,6 +165,7 @@ func regoC01(c *checkCtx) {
 	progs = append(progs, regosym.FamilyFloatBounds(thorough)...)
 	progs = append(progs, regosym.FamilyFloatSets(thorough)...)
 	progs = append(progs, regosym.FamilySpecialValues(thorough)...)
+	progs = append(progs, regosym.FamilyEmptySets()...)
 	if thorough {
 		progs = append(progs, regosym.FamilyBoundaries()...)
 	}
@@ -182,7 +183,7 @@ func regoC01(c *checkCtx) {
 		progs = append(progs, regosym.FamilyVariableIndex([]int{1, 11, 12, 22, 23, 24, 25, 26})...)
 	}
 	c.evidence["bounds_regosym"] = map[string]any{"nodes": n, "values_per_property": 2, "classes": "classes mentioned + 1", "literal_pool": "<= 4 literals derived from the program's constants + references to each node + one dangling reference",
-		"families": "atoms (every documented atomic constraint alone / under not / in or / in if-then), atoms below nested/atLeast/atMost in positive and negative positions, atoms on composite paths (sequence, alternative, inverse, @type), set constraints whose values hold a double quote or a backslash (alone and as the condition of an if-then-else), value ranges with non-integer bounds (data values on the bound and on both sides, nearer than six decimals), quantified (nested, atLeast/atMost 0..2 around small inner formulas, positive and negated), connective skeletons as YAML, variable-index (a nested-in-nested constraint whose outer quantified variable is the k-th of its validation)"}
+		"families": "atoms (every documented atomic constraint alone / under not / in or / in if-then), atoms below nested/atLeast/atMost in positive and negative positions, atoms on composite paths (sequence, alternative, inverse, @type), set constraints with an empty list of values, set constraints whose values hold a double quote or a backslash (alone and as the condition of an if-then-else), value ranges with non-integer bounds (data values on the bound and on both sides, nearer than six decimals), quantified (nested, atLeast/atMost 0..2 around small inner formulas, positive and negated), connective skeletons as YAML, variable-index (a nested-in-nested constraint whose outer quantified variable is the k-th of its validation)"}
 	outs, err := runPrograms(regoWork(c), progs, func(p regosym.Program) regosym.Scope { return regosym.ScopeFor(p, n, 2, 4) }, c.knownSignatures("C01.verdict-eq-reference"), 16)
 	if err != nil {
 		c.inconclusive("regosym: " + err.Error())
@@ -411,12 +412,19 @@ func regoC13(c *checkCtx) {
 			F: regosym.And{Fs: []regosym.Formula{regosym.Atom{Path: regosym.P(1), Kind: "minCount", N: 1}}}}}}
 		progs = append(progs, p)
 	}
+	// names and messages written WITHOUT quotes that YAML resolves to a number, a boolean, a date: the
+	// text written is still the name / the message
+	plain := [][3]string{{"2024", "404", "2024-01-01"}, {"1.5", "true", "404"}, {"0x1F", "1e3", "no"}, {"yes", "2024-01-01", "3.14"}, {"Rules v2", "0", "False"}}
+	for _, t := range plain {
+		progs = append(progs, regosym.Program{Name: t[0], Plain: true, Validations: []regosym.Validation{{Name: t[1], Level: "violation", Class: 0, Message: t[2],
+			F: regosym.And{Fs: []regosym.Formula{regosym.Atom{Path: regosym.P(1), Kind: "minCount", N: 1}}}}}})
+	}
 	scope := func(p regosym.Program) regosym.Scope {
 		sc := regosym.ScopeFor(p, 2, 2, 2)
 		sc.Scalars = regosym.MessagePool()
 		return sc
 	}
-	c.evidence["bounds_regosym"] = map[string]any{"messages": msgs, "profile_names": pnames, "validation_names": vnames, "value_pool": "a string with a quote and a percent sign, an integer, a boolean, a float"}
+	c.evidence["bounds_regosym"] = map[string]any{"messages": msgs, "profile_names": pnames, "validation_names": vnames, "plain_scalars (profile name, validation name, message written without quotes)": plain, "value_pool": "a string with a quote and a percent sign, an integer, a boolean, a float"}
 	outs, err := runShapes(regoWork(c), progs, scope, regosym.ShapeOptions{Message: true}, 16)
 	if err != nil {
 		c.inconclusive("regosym: " + err.Error())
@@ -439,6 +447,7 @@ func regoC07(c *checkCtx) {
 	progs = append(progs, regosym.FamilyVariableIndex([]int{1, 2, 12, 22, 23, 24, 25, 26})...)
 	progs = append(progs, regosym.FamilyBoundaries()...)
 	progs = append(progs, regosym.FamilyFloatBounds(thorough)...)
+	progs = append(progs, regosym.FamilyEmptySets()...)
 	for _, b := range regosym.BaseProfilesC15() {
 		if b.Name != "B4" { // B4 embeds Rego: outside C07
 			progs = append(progs, b)
@@ -456,7 +465,7 @@ func regoC07(c *checkCtx) {
 		progs = append(progs, regosym.Program{Name: n, Validations: []regosym.Validation{
 			{Name: vn, Level: "violation", Class: 0, F: regosym.And{Fs: []regosym.Formula{regosym.Atom{Path: regosym.P(1), Kind: "minCount", N: 1}}}}}})
 	}
-	c.evidence["bounds_regosym"] = map[string]any{"programs": len(progs), "families": "profile and validation names with quotes, backslashes, percent signs, braces, letters and digits outside ASCII, keywords; atoms, quantified, nested atoms, atom paths, skeletons of depth 2, variable indices up to 26, rewrite base profiles, messages with repeated / several placeholders; every program with a path sequence also with the sequence written over several lines"}
+	c.evidence["bounds_regosym"] = map[string]any{"programs": len(progs), "families": "a lone control character or DEL in profile name / validation name / message / set value (8 characters x 4 places); profile and validation names with quotes, backslashes, percent signs, braces, letters and digits outside ASCII, keywords; atoms, quantified, nested atoms, atom paths, skeletons of depth 2, variable indices up to 26, rewrite base profiles, messages with repeated / several placeholders; every program with a path sequence also with the sequence written over several lines"}
 	drv, err := regosym.BuildDriver(repoDir, verifDir(), regoWork(c))
 	if err != nil {
 		c.inconclusive("regosym: " + err.Error())
@@ -485,6 +494,27 @@ func regoC07(c *checkCtx) {
 	} {
 		texts = append(texts, raw[1])
 		descs = append(descs, "hand-written: "+raw[0])
+	}
+	// a single control character (or DEL) in an otherwise plain text, in each place a profile text is
+	// pasted into the policy: no backslash, quote or lower-case letter next to it that could send the
+	// text down another path of an escaper
+	for _, ctl := range []string{`\x01`, `\b`, `\f`, `\e`, `\x7f`, `\t`, `\n`, `\r`} {
+		text := "AB" + ctl + "CD"
+		for _, place := range []string{"profile name", "validation name", "message", "set value"} {
+			pn, vn, msg, val := "P", "V1", "M", "A"
+			switch place {
+			case "profile name":
+				pn = text
+			case "validation name":
+				vn = text
+			case "message":
+				msg = text
+			case "set value":
+				val = text
+			}
+			texts = append(texts, fmt.Sprintf("#%%Validation Profile 1.0\nprofile: \"%s\"\nprefixes:\n  ex: http://example.org/\nviolation:\n  - \"%s\"\nvalidations:\n  \"%s\":\n    message: \"%s\"\n    targetClass: ex.C\n    propertyConstraints:\n      ex.p:\n        in: [ \"%s\", \"B\" ]\n", pn, vn, vn, msg, val))
+			descs = append(descs, "hand-written: "+place+" AB"+ctl+"CD")
+		}
 	}
 	gens, err := drv.Generate(texts)
 	if err != nil {
